@@ -299,6 +299,15 @@ class Builder:
         self.heap[o.oid] = {}
         return self.mk('obj', o)
 
+    def symbolic_obj(self, cls, param_keys, prefill=None):
+        """An instance of `cls` that is NOT constructed: the listed attributes are
+        symbolic parameters (or the given nodes); used to analyse one function of
+        a helper class for all attribute values."""
+        o = Obj(cls, list(param_keys), True)
+        self.objs[o.oid] = o
+        self.heap[o.oid] = dict(prefill or {})
+        return self.mk('obj', o)
+
     def instantiate(self, cls, args=(), kw=None, symbolic=False, at=None):
         objn = self.new_obj(cls, symbolic)
         init = cls.find_method('__init__')
